@@ -23,18 +23,18 @@ CHECKS = {
             "DESIGN.md §4 C03",
             "One logical chain is laid out in many physical ways (file assignment/order, 1..300 files, file numbers to 2^64-1, name padding, "
             "gaps/garbage/foreign/unindexed blocks, sparse >4 GiB offsets, extra index keys and directory entries, index storage styles); every "
-            "layout is run for real and must give the model's output, identical across layouts; the H2 fetch log must name the record's (file, offset).",
+            "layout is run for real and must give the model's output, identical across layouts; the H2 fetch log must name the record's (file, offset). Includes records longer than their block, index churn over several database sessions, and block files owned by another account than the one running the tool.",
             "Trusts the generator's CDiskBlockIndex encoding (written from Bitcoin Core's serialisation rules) and rusty-leveldb."),
     "C05": ("exploration", "differential monitor: real evaluator verdict stream vs reference rule table + independent address decoder",
             "DESIGN.md §4 C05",
             "2x10^5 (quick) to millions (thorough) of scripts from exhaustive mutation families and random generators are evaluated by the real "
             "code (release and debug) and compared with a reference classifier written from the statement; every address is decoded by an "
-            "independent Base58Check/Bech32(m) implementation; a sample is observed black-box through four callbacks.",
+            "independent Base58Check/Bech32(m) implementation; a sample is observed black-box through four callbacks. Key material includes real curve points in every SEC1 form; other spellings of the coin name are tried black-box.",
             "The reference is my reading of the statement; two multisig look-alike shapes are type-unconstrained. The tool-mode hook calls the production function unchanged."),
     "C06": ("exploration", "differential monitor: real evaluator verdict stream vs push-rule tokenizer/template reference",
             "DESIGN.md §4 C06",
             "As C05 for the six fork coins with fork-specific families (every push form in every template slot across all width boundaries, "
-            "zero-length and truncated pushes, NOP insertion, wrong/missing/extra tokens); no Error pattern and no panic allowed. Long evaluation histories in one process (2^16+ distinct destinations, then earlier ones return in the same and in another role).",
+            "zero-length and truncated pushes, NOP insertion, wrong/missing/extra tokens); no Error pattern and no panic allowed. Long evaluation histories in one process (2^16+ distinct destinations, then earlier ones return in the same and in another role). Key material includes real curve points in compressed, uncompressed and hybrid form.",
             "Reference tokenizer + five templates from the statement; coin version bytes taken from the property text."),
     "C11": ("exploration", "metamorphic monitor: plaintext vs XOR-obfuscated directory, plus reference model",
             "DESIGN.md §4 C11",
@@ -45,19 +45,19 @@ CHECKS = {
     "C14": ("exploration", "totality monitor (exit status/panic) on debug+release builds + reference model on whole-program runs",
             "DESIGN.md §4 C14",
             "Hostile byte strings are pushed through the evaluator in-process (catch_unwind) on debug and release builds for 8 coins, and placed "
-            "into scriptPubKey/scriptSig/witness of valid chains on which all five callbacks must exit 0 with outputs equal to the model. Well-formed scripts count as hostile content too: innocent outputs reusing a hostile script's pushed bytes in another role must keep their model rows.",
+            "into scriptPubKey/scriptSig/witness of valid chains on which all five callbacks must exit 0 with outputs equal to the model. Well-formed scripts count as hostile content too: innocent outputs reusing a hostile script's pushed bytes in another role must keep their model rows. A deadlock (process tree idle and asleep for 10 s) counts as a failed run, a busy process at the watchdog as inconclusive.",
             "Debug-profile overflow/bounds checks act as the sanitizer; chains are otherwise valid."),
     "C16": ("exploration", "reference-model monitor on real opreturn runs (exact text and order)",
             "DESIGN.md §4 C16",
             "Payload lengths 0..300 exhaustively and up to 70,000 in every push form, ASCII/UTF-8/invalid/newline/control payloads mixed with all "
-            "other script types x 8 coins x ranges; stdout minus log lines must equal the model's line sequence exactly. One run of more than 2^16 blocks (70,000; 140,000 in thorough) is compared with the model as well.",
+            "other script types x 8 coins x ranges; stdout minus log lines must equal the model's line sequence exactly. One run of more than 2^16 blocks (70,000; 140,000 in thorough) is compared with the model as well. Identical transactions in different blocks included.",
             "OP_RETURN scripts that are not exactly one push are unconstrained; payloads never look like log lines."),
     "C04": ("exploration", "trace-spec monitor over the delivery log (exact sequence + prev links) + reference model of the active chain alone",
             "DESIGN.md §4 C04, §5",
             "Indexes with an active chain plus header-only / failed records and one data-bearing competitor class (stale, failed, reorged-out; "
             "occupied height or beyond the tip; key sorted before/after the active block; branch length 1..3) are run for real; the delivered hash "
             "sequence must be the active chain with intact prev links and every output must equal the model. Four competitor shapes are recorded "
-            "known findings (KNOWN_FINDINGS.txt); every other deviation, including an unexpected one inside such a case, is a violation. Indexes of a node in headers-first sync (9,000 to 140,000 header-only records) with losing competitors at most heights included.",
+            "known findings (KNOWN_FINDINGS.txt); every other deviation, including an unexpected one inside such a case, is a violation. Indexes of a node in headers-first sync (9,000 to 140,000 header-only records) with losing competitors at most heights included. Includes data directories that grow between runs (later database sessions of the node).",
             "Status semantics of Bitcoin Core's BlockStatus; one data-bearing competitor class per index so that attribution is exact."),
     "C07": ("exploration", "reference-model monitor over bounded-exhaustive and random spend histories (row multiset of real unspentcsvdump runs)",
             "DESIGN.md §4 C07",
@@ -74,26 +74,26 @@ CHECKS = {
             "DESIGN.md §4 C09",
             "Completeness: every tx count 1..64 and larger trees, start offsets, 8 coins with real genesis blocks where reconstructible. "
             "Soundness: all 256 bits of the merkle and prev fields of targeted blocks, sampled (quick) or all (thorough) bits of txid-covered tx "
-            "bytes, foreign-block swaps and wrong genesis must make the run fail at that height with no final-named output. A verified run of more than 2^16 blocks and windows crossing round heights (10^k, 2^k) must be accepted too.",
+            "bytes, foreign-block swaps and wrong genesis must make the run fail at that height with no final-named output. A verified run of more than 2^16 blocks and windows crossing round heights (10^k, 2^k) must be accepted too. Consistent chains with non-monotonic, future-dated and edge-of-range header times included.",
             "Unparsable-after-flip counts as rejected; corruption applied to block bytes while the index keeps the original hash."),
     "C10": ("fault_enumeration", "fault enumeration (file faults, RLIMIT_FSIZE, strace-injected write errors, SIGKILL at syscall ordinals) with outcome oracle + trace spec over strace logs; strace-injected errors on input syscalls, mid-run file damage under SIGSTOP",
             "DESIGN.md §4 C10",
             "Input faults at every height x kind x truncation point; output faults on a size-limit grid and at every k-th write; SIGKILL at every "
             "ordinal of every output syscall; outcome oracle (exit 0 => complete final files and no tmp; failure => no final file), trace spec "
-            "'final names only via rename(tmp->final), no write after rename', crash oracle 'no partial final-named file'. Also: EMFILE/ENOENT/EACCES/EIO injected at every open and read of a blk file, blk files unlinked or shrunk while the run is suspended, and faults hitting 255..1024 blocks at once.",
+            "'final names only via rename(tmp->final), no write after rename', crash oracle 'no partial final-named file'. Also: EMFILE/ENOENT/EACCES/EIO injected at every open and read of a blk file, blk files unlinked or shrunk while the run is suspended, and faults hitting 255..1024 blocks at once. Also: the readers of stdout / stderr gone (closed pipe, head -n 1, /dev/full).",
             "Kill points are syscall boundaries touching output paths; kernel-level torn writes and fsync semantics out of scope."),
     "C12": ("exploration", "reference-model monitor on real runs over generated AuxPoW sections",
             "DESIGN.md §4 C12",
             "AuxPoW sections of arbitrary shape (legacy/segwit parent coinbase, branch lengths 0..40 and 252..300) on namecoin/dogecoin for "
             "versions below/at/above the threshold, mixed chains, and the six other coins as negative control; csvdump (+unspent/simplestats) "
-            "with --verify must equal the model that ignores the section.",
+            "with --verify must equal the model that ignores the section. Includes runs without -c on directories named like other coins' default folders.",
             "Section layout per the merged-mining specification."),
     "C13": ("exploration", "cross-run equality monitor under varied schedules (thread counts, in-task delay injection, CPU pinning) with hook-proved work splitting; run-history monitor with input-integrity digests and strace spec; ThreadSanitizer (thorough); suspended-run monitor",
             "DESIGN.md §4 C13",
             "The same directory is run under 6 thread counts x jitter seeds x CPU contention; all callbacks must agree with each other and the "
             "model; H3 log proves blocks were split across workers and counts distinct thread->task maps. Run sequences into a dirty dump folder "
             "with the index reopened 11 times: results unchanged, blk/xor digests and index key/value dump unchanged, no write-type syscall on "
-            "input files. Thorough adds a TSan build. Runs suspended for more than 10 s (SIGSTOP/SIGCONT) reach the time-driven progress report and must give the undisturbed result; schedule chains contain ties for both per-report records.",
+            "input files. Thorough adds a TSan build. Runs suspended for more than 10 s (SIGSTOP/SIGCONT) reach the time-driven progress report and must give the undisturbed result; schedule chains contain ties for both per-report records. Concurrent instances (B runs completely while A is stopped) must each give their own model's result.",
             "Only observed interleavings count; jitter sleeps inside tasks; TSan reports inside dependencies are listed as inconclusive."),
     "C15": ("exploration", "reference-model monitor: parsed report vs exact rational recomputation, on debug and release builds; direct get_mean monitor through the tool mode",
             "DESIGN.md §4 C15",
@@ -105,7 +105,7 @@ CHECKS = {
             "DESIGN.md §4 C17",
             "Real runs over 1..100/300-file layouts (disjoint, overlapping, interleaved, revisited) and ranges; after every block the real set of "
             "descriptors open on blk files must be within the files that still hold a higher block; runs must also succeed under a descriptor "
-            "limit calibrated on the single-file layout (+2/+3).",
+            "limit calibrated on the single-file layout (+2/+3). --verify ranges beginning behind a file's last block included.",
             "Census hook reads /proc/self/fd; bound computed from the full index as the statement allows."),
 }
 
